@@ -67,13 +67,15 @@ def row_scales(m, rows):
     return [float(i + 1) for i in range(m)]
 
 
-def run_impl(entry, m, k, retain, novmap, rows="normal", aux=False):
+def run_impl(entry, m, k, retain, novmap, rows="normal", aux=False, narrow=False):
     log = []
-    x = torch.tensor([1.0, 2.0, 3.0], dtype=torch.float64, requires_grad=True)
+    x = torch.tensor([1.0, 2.0, 3.0], dtype=torch.float32 if narrow else torch.float64, requires_grad=True)
     # aux: a parameter of the SAME SHAPE as x that is not in the graph, listed explicitly (in front of x): it
     # gets zeros in every row, and must not take x with it in any sweep
-    w_aux = torch.tensor([5.0, 6.0, 7.0], dtype=torch.float64, requires_grad=True)
-    h = x * 2
+    w_aux = torch.tensor([5.0, 6.0, 7.0], dtype=x.dtype, requires_grad=True)
+    # narrow: the parameter is float32 and upcast at once by a float64 computation (master weights): the
+    # differentiated tensors and the parameters have different dtypes, the Jacobian is float32
+    h = x.to(torch.float64) * 2
     if novmap:
         h = NoVmap.apply(h)
     h.register_hook(_hook(log))
@@ -92,7 +94,7 @@ def run_impl(entry, m, k, retain, novmap, rows="normal", aux=False):
                     t = t.reshape(2, p // 2)
                 outs.append(t)
                 s += p
-            backward(outs, Constant(w), retain_graph=retain, parallel_chunk_size=k,
+            backward(outs, Constant(w.to(x.dtype)), retain_graph=retain, parallel_chunk_size=k,
                      **({"inputs": [w_aux, x]} if aux else {}))
             expected = 2 * (w @ W)
             res["grads"] = x.grad.tolist() + (w_aux.grad.tolist() if aux else [])
@@ -103,7 +105,7 @@ def run_impl(entry, m, k, retain, novmap, rows="normal", aux=False):
             ps = [torch.tensor(pvl[i], dtype=torch.float64, requires_grad=True) for i in range(m)]
             f = torch.cat([f1, f2])
             losses = [(W[i] @ f) * ps[i] for i in range(m)]
-            mtl_backward(losses, [f1, f2], Constant(w), retain_graph=retain,
+            mtl_backward(losses, [f1, f2], Constant(w.to(x.dtype)), retain_graph=retain,
                          parallel_chunk_size=k, **({"shared_params": [w_aux, x]} if aux else {}))
             pv = torch.tensor(pvl, dtype=torch.float64)
             expected = 6 * ((w * pv) @ W)
@@ -204,6 +206,10 @@ def run(chk):
             res4 = run_impl(entry, m, k, retain, False, "normal", aux=True)
             chk.note("aux_same_shape_unused_input")
             judge(chk, case, plan, False, res4, "normal+aux")
+        if (m + (0 if k is None else k)) % 2 == 1 or m <= 3:
+            res5 = run_impl(entry, m, k, retain, False, "normal", aux=(m % 2 == 0), narrow=True)
+            chk.note("narrow_float32_parameter_float64_graph")
+            judge(chk, case, plan, False, res5, "normal+narrow" + ("+aux" if m % 2 == 0 else ""))
         if entry == "mtl_backward" and m >= 2:
             # rows of the Jacobian that are exactly zero or tiny are rows all the same: same sweeps, and a
             # relative comparison of the update (the all-tiny variant has nothing else to hide behind)
@@ -223,7 +229,8 @@ def replay(chk, obj):
     plans = model_plans([case])
     rows_ = obj.get("rows", "normal")
     res = run_impl(obj["entry"], obj["m"], obj["k"], obj["retain"], obj.get("novmap", False),
-                   rows_.replace("+aux", ""), aux=rows_.endswith("+aux"))
+                   rows_.replace("+aux", "").replace("+narrow", ""), aux=rows_.endswith("+aux"),
+                   narrow="+narrow" in rows_)
     print("observed:", res)
     print("model plan:", plans[(obj["m"], obj["k"], obj["retain"])])
     ok = judge(chk, case, plans[(obj["m"], obj["k"], obj["retain"])], obj.get("novmap", False), res,
